@@ -54,6 +54,7 @@ fn engines_for(property: &str) -> Vec<(Box<dyn Engine>, u64, u64)> {
         "C06" => vec![
             (Box::new(ChanInline), 1_000_000, 20_000_000),
             (Box::new(ChanThreads), 100_000, 3_000_000),
+            (Box::new(FileE2e), 30_000, 1_000_000),
         ],
         "C03" => vec![(Box::new(CtxFrames), 150_000, 6_000_000)],
         "C04" => vec![(Box::new(CtxSpans { focus: "C04" }), 150_000, 5_000_000)],
